@@ -6,7 +6,7 @@ CONSTANTS
   Ops = {"apply", "revdf"}
   Labels = {"A"}
   Steps = {1, 5, 29, 30, 31}
-  MaxLen = 7
+  MaxLen = 5
   MaxUpd = 2
   Bug = "none"
 SPECIFICATION ISpec
